@@ -100,7 +100,13 @@ func runCase(rt *rapid.T) {
 	bn.SetValInfos(infos)
 	bn.LeakForeign = rapid.Bool().Draw(rt, "beaconIgnoresFilter")
 
-	// beacon assignments
+	// beacon assignments. Real beacon nodes keep answering for validators that are no longer (or not yet)
+	// active, e.g. an exited validator stays in the sync committee until the period ends: when drawn,
+	// the tables also hold sync-committee duties for cluster validators after their exit epoch. They are served
+	// only if asked for (or always, when the beacon node ignores the index filter) and must never be
+	// triggered.
+	assignInactive := rapid.Bool().Draw(rt, "beaconAssignsInactive")
+	inactiveAssigned := false
 	tables := fakebn.NewDutyTables()
 	for e := 0; e <= nEpochs+1; e++ {
 		ep := eth2p0.Epoch(e)
@@ -108,6 +114,14 @@ func runCase(rt *rapid.T) {
 		tables.Sync[ep] = map[eth2p0.ValidatorIndex]eth2v1.SyncCommitteeDuty{}
 		for _, v := range everyone {
 			isForeign := v >= 70
+			if info, ok := infos[v]; ok && assignInactive && !isForeign && ep > info.ExitEpoch && rapid.IntRange(0, 1).Draw(rt, "exitedStillInSyncCommittee") == 0 {
+				// (from the epoch after the exit epoch on: the exit epoch itself is resolved one slot early,
+				// while the validator still counts as active — whether that boundary duty is "for an
+				// inactive validator" is a matter of reading, so it is not generated)
+				// only sync-committee membership outlives a validator's active life on a real beacon node
+				tables.Sync[ep][v] = eth2v1.SyncCommitteeDuty{PubKey: pubkeyOf(v), ValidatorIndex: v, ValidatorSyncCommitteeIndices: []eth2p0.CommitteeIndex{eth2p0.CommitteeIndex(v)}}
+				inactiveAssigned = true
+			}
 			if isForeign || activeIn(v, ep) {
 				slot := eth2p0.Slot(uint64(e)*spe + uint64(rapid.IntRange(0, int(spe)-1).Draw(rt, "attSlot")))
 				tables.Att[ep][v] = eth2v1.AttesterDuty{PubKey: pubkeyOf(v), Slot: slot, ValidatorIndex: v, CommitteeIndex: eth2p0.CommitteeIndex(uint64(v) % 4), CommitteeLength: 16, CommitteesAtSlot: 4, ValidatorCommitteeIndex: uint64(v) % 16}
@@ -156,7 +170,8 @@ func runCase(rt *rapid.T) {
 	// fault script: at drawn slots make an endpoint fail n times / make beacon calls slow
 	endSlot := uint64(nEpochs) * spe
 	claimed := map[uint64]bool{}
-	failures, slowdowns := 0, 0
+	failures, slowdowns, lookAheads := 0, 0, 0
+	var otherUsers sync.WaitGroup
 	var script []string
 	for s := startSlot; s < endSlot+1; s++ {
 		slotStart := genesis.Add(time.Duration(s) * slotDur)
@@ -183,6 +198,34 @@ func runCase(rt *rapid.T) {
 			script = append(script, fmt.Sprintf("s%d:latency(%v)", s, lat))
 		case 2, 3:
 			bn.SetLatency(0)
+		case 4, 5:
+			// another user of the shared duties cache (the validator API serves validator clients that
+			// look ahead, one or a few validators at a time) asks for this or the next epoch before or
+			// after the scheduler does; what the scheduler is then served must still be complete
+			ep := eth2p0.Epoch(s/spe) + eth2p0.Epoch(rapid.IntRange(0, 1).Draw(rt, "lookAhead"))
+			var idx []eth2p0.ValidatorIndex
+			for _, v := range cluster {
+				if rapid.IntRange(0, 2).Draw(rt, "lookFor") == 0 {
+					idx = append(idx, v)
+				}
+			}
+			if len(idx) == 0 {
+				idx = []eth2p0.ValidatorIndex{cluster[rapid.IntRange(0, len(cluster)-1).Draw(rt, "lookForOne")]}
+			}
+			kind := rapid.SampledFrom([]string{"proposer", "attester"}).Draw(rt, "lookKind")
+			otherUsers.Add(1)
+			go func() {
+				defer otherUsers.Done()
+				cctx, ccancel := context.WithTimeout(context.Background(), 40*slotDur)
+				defer ccancel()
+				if kind == "proposer" {
+					_, _ = dc.ProposerDutiesCache(cctx, ep, idx)
+				} else {
+					_, _ = dc.AttesterDutiesCache(cctx, ep, idx)
+				}
+			}()
+			lookAheads++
+			script = append(script, fmt.Sprintf("s%d:other_cache_user(%s,e%d,%v)", s, kind, ep, idx))
 		}
 	}
 	bn.SetLatency(0)
@@ -190,6 +233,7 @@ func runCase(rt *rapid.T) {
 	// several slots (the property allows delay), so wait well beyond the slowest possible backlog.
 	time.Sleep(60 * slotDur)
 	synctest.Wait()
+	otherUsers.Wait()
 	sched.Stop()
 	<-runDone
 	synctest.Wait()
@@ -321,7 +365,7 @@ func runCase(rt *rapid.T) {
 	nontrivial := (failures > 0 || skipped > 0 || lifecycle) && boundary
 	sort.Strings(ts)
 	vstat.Case(fmt.Sprintf("%d/%d/%d/%d|%v|%v", spe, nEpochs, nCluster, startSlot, script, strings.Join(ts, ",")), nontrivial,
-		cls("failed_resolution", failures > 0), cls("slow_beacon", slowdowns > 0), cls("skipped_slot", skipped > 0), cls("activation_or_exit", lifecycle), cls("foreign_leak", bn.LeakForeign && nForeign > 0), cls("complete_slots_checked", complete > 0))
+		cls("failed_resolution", failures > 0), cls("slow_beacon", slowdowns > 0), cls("skipped_slot", skipped > 0), cls("activation_or_exit", lifecycle), cls("foreign_leak", bn.LeakForeign && nForeign > 0), cls("beacon_assigns_inactive_cluster_validators", inactiveAssigned), cls("other_duties_cache_user", lookAheads > 0), cls("complete_slots_checked", complete > 0))
 	vstat.Count("triggers", int64(len(trigs)))
 	vstat.Count("complete_duties_checked", int64(complete))
 	if nontrivial && skipped > 0 && vstat.WantSample("skipped") {
